@@ -77,9 +77,7 @@ Print Assumptions C02_packed_score_site_shift.
    chord length that vanishes at the rim; circle_overlap is the sum of the two segments cut by the common chord ---- *)
 From Coquelicot Require Import Coquelicot.
 From PV Require Import proofs.LensFacts proofs.LensModel.
-From PV Require Import gen.GenFns proofs.SourceFacts.
-From PV Require Import model.Iter proofs.SearchFacts.
-From PV Require Import gen.GenFns proofs.SourceFacts proofs.SearchFacts.
+From PV Require Import gen.GenFns model.Iter model.Pipeline proofs.ListLemmas proofs.SrcCell proofs.SrcShapes proofs.SrcState.
 Local Open Scope R_scope.
 
 Theorem C02_segment_integral :
@@ -201,4 +199,37 @@ Theorem S_cell_sides_are_source :
     c.
 Proof. exact cell_sides_are_source. Qed.
 Print Assumptions S_cell_sides_are_source.
+
+
+Theorem C02_cell_source_translated :
+  translated_gen_wrap = true /\ translated_gen_periodic_images = true /\
+    translated_gen_positions = true /\ translated_gen_cell_a = true /\ translated_gen_cell_b =
+    true /\ translated_gen_cell_area = true /\ translated_gen_to_cartesian = true.
+Proof. exact cell_source_translated. Qed.
+Print Assumptions C02_cell_source_translated.
+
+Theorem C02_shapes_source_translated :
+  translated_gen_mol_trimer = true /\ translated_gen_lj_trimer = true /\
+    translated_gen_lj_energy = true /\ translated_gen_ljshape_energy = true /\
+    translated_gen_disc_intersects = true /\ translated_gen_seg_intersects = true /\
+    translated_gen_poly_intersects = true /\ translated_gen_mol_intersects = true /\
+    translated_gen_radial_dtheta = true /\ translated_gen_radial_edge = true /\
+    translated_gen_angle_term = true /\ translated_gen_poly_term = true /\
+    translated_gen_poly_radius_term = true /\ translated_gen_mol_radius_term = true /\
+    translated_gen_poly_radius = true /\ translated_gen_mol_radius = true /\
+    translated_gen_poly_area = true /\ translated_gen_overlap_area = true /\
+    translated_gen_circle_overlap = true /\ translated_gen_mol_area = true.
+Proof. exact shapes_source_translated. Qed.
+Print Assumptions C02_shapes_source_translated.
+
+Theorem C02_state_source_translated :
+  translated_gen_positions = true /\ translated_gen_total_shapes = true /\
+    translated_gen_relative_positions = true /\ translated_gen_cartesian_positions = true /\
+    translated_gen_lj_total_shapes = true /\ translated_gen_lj_relative_positions = true /\
+    translated_gen_lj_cartesian_positions = true /\ translated_gen_density_precheck = true /\
+    translated_gen_shells = true /\ translated_gen_radius_sq = true /\
+    translated_gen_check_intersection = true /\ translated_gen_packed_score = true /\
+    translated_gen_lj_score = true /\ translated_gen_lj_final = true.
+Proof. exact state_source_translated. Qed.
+Print Assumptions C02_state_source_translated.
 
